@@ -119,13 +119,14 @@ type ContractSet struct {
 	Ghosts  map[string]*GhostDef // key: name (global namespace)
 	Owners  []*OwnerDef
 	FlagChans map[string]bool // "pkgpath|T.f"
+	FlagSignals map[string]string // "pkgpath|T.f" -> predicate over the owning object that closing the channel publishes
 	Files   []string
 	Specs   map[string]*SpecDef
 	Sorts   map[string]bool
 }
 
 func newContractSet() *ContractSet {
-	return &ContractSet{Funcs: map[string]*Contract{}, Preds: map[string]*PredDef{}, Ghosts: map[string]*GhostDef{}, FlagChans: map[string]bool{}}
+	return &ContractSet{Funcs: map[string]*Contract{}, Preds: map[string]*PredDef{}, Ghosts: map[string]*GhostDef{}, FlagChans: map[string]bool{}, FlagSignals: map[string]string{}}
 }
 
 // parseContractFile reads //@ lines. pkgPath is the package the file belongs to ("" for stub files,
@@ -576,6 +577,10 @@ func (cs *ContractSet) parseContractFile(file, pkgPath string) error {
 			cur.TouchesOwned = true
 		case "flagchan":
 			cs.FlagChans[pkgPath+"|"+f[1]] = true
+			// flagchan T.f signals Pred : close(x.f) requires Pred(x); a completed receive from x.f lets the receiver assume it
+			if len(f) >= 4 && f[2] == "signals" {
+				cs.FlagSignals[pkgPath+"|"+f[1]] = f[3]
+			}
 			cur = nil
 		}
 	}
